@@ -16,8 +16,8 @@ Go sources transliterated here:
 
 Envelope: one table; column 0 is an integer primary key that every INSERT provides; the other
 columns are integers (nullable or NOT NULL), plain with an optional default (a literal or an
-expression over column 0), or generated (STORED / VIRTUAL) from an expression over plain
-columns; CHECK constraints are three-valued Boolean expressions over all columns. Values stay
+expression over column 0), or generated (STORED / VIRTUAL) from an expression over earlier
+columns — plain or generated (chains `g1 AS (a*2)`, `g2 AS (g1+1)`); CHECK constraints are three-valued Boolean expressions over all columns. Values stay
 inside the INT range, so the type-conversion step is the identity.
 -/
 namespace Gms.RowPipe
@@ -312,5 +312,35 @@ def stmtWf (T : Table) : Stmt → Bool
     tuples.all fun vals => (List.range T.cols.length).all fun i =>
       !isExplicit cols vals i || (colSpec T i).gen.expr?.isNone
   | _ => true
+
+-- ---------------------------------------------------------------------------------------------
+-- INSERT … ON DUPLICATE KEY UPDATE (one tuple)
+
+/-- Go: `insertIter.Next` with `onDupKeyUpdateExprs` for one tuple. The tuple first passes the
+INSERT phases (`validateNullability`, `evaluateChecks`); `inserter.Insert` then either stores it or
+reports the existing row with the same key, and `handleOnDuplicateKeyUpdate` applies the SET list
+to *that* row: explicit fields, the derived fields (one per generated column, the same
+`addDependentUpdateExprs` list as UPDATE) if the row changed, the checks, `updater.Update`.
+The statement is expressed as the plain statement it behaves as. Envelope: no NOT NULL column
+besides the key and the key is not assigned (the ON DUPLICATE KEY path does not call
+`validateNullability`), the SET list does not use `VALUES(col)`. -/
+def odkuStmt (T : Table) (rows : List Row) (cols : List Nat) (vals : List Src) (sets : List (Nat × Src)) :
+    Except Err Stmt :=
+  match insertRow T false cols vals [] with
+  | .failed e => .error e
+  | .skipped => .ok (.insert false cols [vals])
+  | .stored r =>
+    match pk r with
+    | some k =>
+      if rows.any (fun x => pk x == some k) then .ok (.update false sets (some k))
+      else .ok (.insert false cols [vals])
+    | none => .ok (.insert false cols [vals])
+
+/-- One ON DUPLICATE KEY UPDATE statement: a tuple the INSERT phases reject fails without effect. -/
+def stepOdku (T : Table) (rows : List Row) (cols : List Nat) (vals : List Src) (sets : List (Nat × Src)) :
+    List Row × Option Err :=
+  match odkuStmt T rows cols vals sets with
+  | .ok st => step T rows st
+  | .error e => (rows, some e)
 
 end Gms.RowPipe
